@@ -1,7 +1,10 @@
 """C24 -- dense matrix algebra over exact numbers is correct.
 Model: coq/C24/DenseModel.v (the loops of symengine/dense_matrix.cpp over a row-major vector with
 checked indices; entries Integer/Rational/zoo/nan with the Basic-level add/sub/mul/div).
-Theorems: coq/C24/P_*.v.  Tie: one operation per case line, run on the extracted model and on the
+Theorems: coq/C24/P_*.v (all sizes: entrywise specifications of the elementary operations, row
+equivalence + (reduced) echelon form of the pivoted eliminations, L*U = P*A, the solvers and inverses
+built on them, det_bareis = cofactor determinant for every order, char_poly/det_berkowitz up to order
+4/5; guarded theorems + refutation witnesses for the unpivoted routines).  Tie: one operation per case line, run on the extracted model and on the
 library, outputs compared entry by entry (exact rationals).  Oracle (in the driver, independent of
 the library's arithmetic, GMP mpq): multiply back (A*x = b, A*inv = I, L*U = P*A, L*D*L^T = A),
 row equivalence + echelon shape against a reference elimination, determinants against cofactor
@@ -467,7 +470,28 @@ def gen_gauss(rng, tier):
     return "%s %s" % (op, gmat(n, n))
 
 
-GENS = [gen_basic, gen_basic, gen_elim, gen_elim, gen_solve, gen_solve, gen_factor, gen_det, gen_inverse, gen_gauss]
+def gen_qr(rng, tier):
+    """QR (not modelled: oracle only) on A = Q0 * R0 with Q0 a product of rational Givens rotations and R0 upper
+    triangular with a positive diagonal, so that every Gram-Schmidt norm is rational"""
+    n = rng.choice([2, 3, 3, 4])
+    c = rng.randint(1, n)
+    Q = [[Fraction(int(i == j)) for j in range(n)] for i in range(n)]
+    for _ in range(rng.randint(1, 4)):
+        i, j = rng.sample(range(n), 2)
+        cs, sn = rng.choice([(Fraction(3, 5), Fraction(4, 5)), (Fraction(5, 13), Fraction(12, 13)),
+                             (Fraction(8, 17), Fraction(15, 17)), (Fraction(0), Fraction(1))])
+        G = [[Fraction(int(a == b)) for b in range(n)] for a in range(n)]
+        G[i][i], G[j][j], G[i][j], G[j][i] = cs, cs, -sn, sn
+        Q = mmul(G, Q)
+    R = [[(Fraction(rng.choice([1, 2, 3, Fraction(1, 2)])) if j == i else ent(rng) if j > i else Fraction(0))
+          for j in range(c)] for i in range(c)]
+    A = mmul([row[:c] for row in Q], R)
+    return "qr %s" % mstr(A)
+
+
+ORACLE_ONLY = {"qr"}
+
+GENS = [gen_basic, gen_basic, gen_elim, gen_elim, gen_solve, gen_solve, gen_factor, gen_det, gen_inverse, gen_gauss, gen_qr]
 
 CORPUS = [
     # DESIGN.md section 11 row 22: column counter used as pivot row after a skipped column
@@ -610,7 +634,7 @@ def explore(ctx, drv, model, cases, search=False):
     mod = ctx.run_lines(model, cases, timeout=1800, shards=16)
     ctx.cov["evaluations"] += len(cases)
     ctx.cov["distinct_nontrivial"] += len(set(c for c in cases if nontrivial(c)))
-    ctx.cov["traces_validated_against_impl"] += len(cases)
+    ctx.cov["traces_validated_against_impl"] += sum(1 for c in cases if "_" not in c.split(None, 1)[1] and c.split()[0] not in ORACLE_ONLY)
     if not search:
         ctx.cov["samples"] += [{"case": c, "model": m, "impl": i} for c, m, i in list(zip(cases, mod, impl))[:8]]
     ndis = 0
@@ -626,8 +650,8 @@ def explore(ctx, drv, model, cases, search=False):
             ctx.violation("C24/%s:crash-%s" % (op, classify(c)),
                           "case `%s` ends with %s on the library (model: %s)" % (c, canon[-40:], m[-80:]),
                           {"family": "C24", "case": c, "impl": canon, "model": m})
-        if "_" in c.split(None, 1)[1]:
-            continue                      # Gaussian-rational case: oracle only (outside the model)
+        if "_" in c.split(None, 1)[1] or op in ORACLE_ONLY:
+            continue                      # Gaussian-rational case / QR: oracle only (outside the model)
         if canon != norm_model(m):
             ndis += 1
             if ndis <= 3:
